@@ -1062,3 +1062,361 @@ Proof.
       * specialize (Hdis XDeliver eq_refl). cbn in Hdis. rewrite P, E in Hdis. discriminate.
   - destruct (astep true s l) eqn:St; try discriminate. eapply IH; [|exact R]. eapply astep_AInv; eauto.
 Qed.
+
+(* ------------------------------------------------------------------------- *)
+(* Cancellation bookkeeping: cancel requests are never withdrawn, work_fini   *)
+(* cancels the workers in order, and joins only after all are cancelled.      *)
+(* ------------------------------------------------------------------------- *)
+Definition cpm (l l' : list worker) : Prop :=
+  forall j x', nth_error l' j = Some x' -> exists x, nth_error l j = Some x /\ (cp x = true -> cp x' = true).
+
+Lemma cpm_refl l : cpm l l.
+Proof. intros j x H. exists x. auto. Qed.
+
+Lemma cpm_trans l1 l2 l3 : cpm l1 l2 -> cpm l2 l3 -> cpm l1 l3.
+Proof.
+  intros H12 H23 j x3 H3. destruct (H23 j x3 H3) as (x2 & H2 & C23).
+  destruct (H12 j x2 H2) as (x1 & H1 & C12). exists x1. auto.
+Qed.
+
+Lemma cpm_upd l i w w' : nth_error l i = Some w -> (cp w = true -> cp w' = true) -> cpm l (upd l i w').
+Proof.
+  intros Hn Hc j x' Hj. destruct (Nat.eq_dec j i) as [->|Hne].
+  - rewrite (nth_upd_same _ _ _ _ Hn) in Hj. inversion Hj; subst. exists w. auto.
+  - rewrite (nth_upd_other _ _ _ _ _ Hn Hne) in Hj. exists x'. auto.
+Qed.
+
+Lemma take_cpm s i w c : nth_error (workers s) i = Some w -> (cp w = true -> c = true) ->
+  cpm (workers s) (workers (take s i (mkw (ws w) c))).
+Proof.
+  intros Hn Hc. unfold take. destruct (queue s); unf; fields; eapply cpm_upd; eauto.
+Qed.
+
+Lemma enter_cpm s i w c : nth_error (workers s) i = Some w -> (cp w = true -> c = true) ->
+  cpm (workers s) (workers (enter s i (mkw (ws w) c))).
+Proof.
+  intros Hn Hc. unfold enter. cbn [cp]. destruct c.
+  - unf; fields. eapply cpm_upd; eauto.
+  - apply take_cpm; auto.
+Qed.
+
+Lemma take_cpm' s i w : nth_error (workers s) i = Some w -> cpm (workers s) (workers (take s i w)).
+Proof. intros Hn. destruct w as [x c]. apply (take_cpm s i (mkw x c) c Hn). auto. Qed.
+
+Lemma enter_cpm' s i w : nth_error (workers s) i = Some w -> cpm (workers s) (workers (enter s i w)).
+Proof. intros Hn. destruct w as [x c]. apply (enter_cpm s i (mkw x c) c Hn). auto. Qed.
+
+Definition acc_same_or_woken (a a' : astate) : Prop := a' = a \/ exists k, a = ABlocked k /\ a' = AWoken k.
+
+Lemma wake_acc_shape a : acc_same_or_woken a (wake_acc a).
+Proof. destruct a; cbn; try (left; reflexivity). right. eauto. Qed.
+
+Section G5.
+Variable wc fc : nat -> bool -> bool.
+
+(* what a worker step does to the acceptor state and to the cancel flags *)
+Lemma worker_step_shape s l s' : step wc fc s l = Some s' ->
+  match l with LStart _ | LRetest _ | LSpurious _ | LDie _ | LFinish _ => True | _ => False end ->
+  cpm (workers s) (workers s') /\ acc_same_or_woken (acc s) (acc s').
+Proof.
+  intros Hs Hl. destruct l; try contradiction; cbn [step] in Hs;
+    destruct (nth_error (workers s) i) as [w|] eqn:Hn; try discriminate.
+  - destruct (ws w) eqn:Hw; try discriminate. inv_some. split.
+    + now apply enter_cpm'.
+    + left. apply enter_acc.
+  - destruct (ws w) eqn:Hw; try discriminate. inv_some. split.
+    + now apply take_cpm'.
+    + left. apply take_acc.
+  - destruct (is_waiting w); try discriminate. inv_some. unf; fields. split; [|left; reflexivity].
+    eapply cpm_upd; eauto.
+  - destruct (ws w); try discriminate; destruct (cp w); try discriminate; inv_some; unf; fields;
+      (split; [eapply cpm_upd; eauto|left; reflexivity]).
+  - destruct (ws w) eqn:Hw; try discriminate. inv_some.
+    assert (Hn1 : nth_error (workers (finish1 s i w x)) i = Some (mkw WReady (cp w))).
+    { unfold finish1; fields. eapply nth_upd_same; eauto. }
+    split.
+    + eapply cpm_trans; [|apply (enter_cpm' _ i _ Hn1)].
+      unfold finish1; fields. eapply cpm_upd; eauto.
+    + rewrite enter_acc. unfold finish1; fields. destruct (finish_signals s); [apply wake_acc_shape|left; reflexivity].
+Qed.
+
+Definition CancelInv (s : st) : Prop :=
+  match acc s with
+  | ACancelling j => forall i w, i < j -> nth_error (workers s) i = Some w -> cp w = true
+  | AJoining _ | ADone => forall i w, nth_error (workers s) i = Some w -> cp w = true
+  | _ => True
+  end.
+
+Lemma CancelInv_mono s s' : cpm (workers s) (workers s') -> acc_same_or_woken (acc s) (acc s') ->
+  CancelInv s -> CancelInv s'.
+Proof.
+  intros Hm [Ha|(k & Ha & Ha')] HC; unfold CancelInv in *.
+  - rewrite Ha. destruct (acc s); auto.
+    + intros i w Hi Hw. destruct (Hm i w Hw) as (x & Hx & Hc). apply Hc. eapply HC; eauto.
+    + intros i w Hw. destruct (Hm i w Hw) as (x & Hx & Hc). apply Hc. eapply HC; eauto.
+    + intros i w Hw. destruct (Hm i w Hw) as (x & Hx & Hc). apply Hc. eapply HC; eauto.
+  - rewrite Ha'. exact I.
+Qed.
+
+Theorem step_CancelInv s l s' : CancelInv s -> step wc fc s l = Some s' -> CancelInv s'.
+Proof.
+  intros HC Hs.
+  assert (W : match l with LStart _ | LRetest _ | LSpurious _ | LDie _ | LFinish _ => True | _ => False end ->
+              CancelInv s').
+  { intros Hl. destruct (worker_step_shape s l s' Hs Hl) as [Hm Ha]. eapply CancelInv_mono; eauto. }
+  destruct l; try (apply W; exact I); clear W; cbn [step] in Hs.
+  - destruct (acc s); try discriminate. destruct (fini s); try discriminate. inv_some.
+    unfold CancelInv; fields. destruct (Nat.ltb _ _); exact I.
+  - destruct (acc s); try discriminate. destruct i as [i|].
+    + destruct (nth_error (workers s) i) as [w|]; try discriminate. destruct (is_waiting w); try discriminate.
+      inv_some. unfold CancelInv; unf; fields. exact I.
+    + destruct (existsb _ _); try discriminate. inv_some. unfold CancelInv; unf; fields. exact I.
+  - destruct (acc s); try discriminate. inv_some. unfold CancelInv; unf; fields.
+    destruct (guard_of _ _ _ _ _); cbn; auto.
+  - destruct (acc s); try discriminate. inv_some. unfold CancelInv. destruct dw; unf; fields.
+    + destruct (guard_of _ _ _ _ _); cbn; auto. intros i w Hi. lia.
+    + intros i w Hi. lia.
+  - destruct (acc s); try discriminate. inv_some. unfold CancelInv; unf; fields.
+    destruct (guard_of _ _ _ _ _); [exact I|]. destruct k; cbn; auto. intros i w Hi. lia.
+  - destruct (acc s); try discriminate. inv_some. unfold CancelInv; unf; fields. exact I.
+  - (* cancel *)
+    destruct (acc s) eqn:Ha; try discriminate. unfold CancelInv in HC. rewrite Ha in HC.
+    destruct (nth_error (workers s) j) as [w|] eqn:Hn; inv_some; unfold CancelInv; unf; fields.
+    + intros i x Hi Hx. destruct (Nat.eq_dec i j) as [->|Hne].
+      * rewrite (nth_upd_same _ _ _ _ Hn) in Hx. inversion Hx; subst. reflexivity.
+      * rewrite (nth_upd_other _ _ _ _ _ Hn Hne) in Hx. apply (HC i); auto. lia.
+    + intros i x Hx. apply (HC i); auto.
+      apply nth_error_None in Hn. assert (i < length (workers s)) by (apply nth_error_Some; congruence). lia.
+  - (* join *)
+    destruct (acc s) eqn:Ha; try discriminate. unfold CancelInv in HC. rewrite Ha in HC.
+    destruct (nth_error (workers s) j) as [w|] eqn:Hn; [destruct (is_dead w); try discriminate|]; inv_some;
+      unfold CancelInv; unf; fields; exact HC.
+Qed.
+
+Theorem run_CancelInv ls : forall s s', CancelInv s -> run wc fc s ls = Some s' -> CancelInv s'.
+Proof.
+  induction ls as [|l ls IH]; cbn; intros s s' HB H.
+  - now inversion H; subst.
+  - destruct (step wc fc s l) eqn:E; try discriminate. eapply IH; [|exact H]. eapply step_CancelInv; eauto.
+Qed.
+End G5.
+
+Lemma init_CancelInv n : CancelInv (init n).
+Proof. exact I. Qed.
+
+(* ------------------------------------------------------------------------- *)
+(* No deadlock: whenever the acceptor is inside work.c and work_fini has not   *)
+(* returned, some step other than a spurious wake-up is enabled.              *)
+(* ------------------------------------------------------------------------- *)
+Definition stuck (wc fc : nat -> bool -> bool) (s : st) : Prop :=
+  acc s <> ARun /\ acc s <> ADone /\ forall l, step wc fc s l <> None -> only_spurious l.
+
+Lemma not_spurious l : (l = LAccSpurious -> False) -> (forall i, l = LSpurious i -> False) -> ~ only_spurious l.
+Proof. intros H1 H2 [H|(i & H)]; eauto. Qed.
+
+Theorem no_deadlock n tr s : n <> 0 -> run guard_or guard_or (init n) tr = Some s -> ~ stuck guard_or guard_or s.
+Proof.
+  intros Hn R (NR & ND & Hst). destruct (reach_invs _ _ _ _ _ Hn R) as [HI HP].
+  assert (HB : BlockedOk s).
+  { apply (run_BlockedOk guard_or guard_or guard_or_sound guard_or_sound tr (init n) s); [apply init_BlockedOk|exact R]. }
+  assert (HC : CancelInv s).
+  { apply (run_CancelInv guard_or guard_or tr (init n) s); [apply init_CancelInv|exact R]. }
+  assert (K : forall l s', step guard_or guard_or s l = Some s' -> ~ only_spurious l -> False).
+  { intros l s' St NS. apply NS. apply Hst. congruence. }
+  destruct (acc s) eqn:Ha; try congruence.
+  - (* ASig *)
+    destruct (existsb is_waiting (workers s)) eqn:Hw.
+    + destruct (existsb_find _ _ Hw) as (i & w & Hi & Hiw).
+      eapply (K (LSignal (Some i))); [cbn [step]; rewrite Ha, Hi, Hiw; reflexivity|].
+      apply not_spurious; intros; discriminate.
+    + eapply (K (LSignal None)); [cbn [step]; rewrite Ha, Hw; reflexivity|].
+      apply not_spurious; intros; discriminate.
+  - (* blocked on finished_work: work is outstanding, and a worker step is enabled *)
+    assert (P : past_wait (acc s) = false) by (rewrite Ha; reflexivity).
+    destruct (drain_pre guard_or guard_or s HI HP P) as (sched & s' & F & R' & _ & _ & _ & NE).
+    assert (M : mu s <> 0). { apply mu_pending. destruct (HB k Ha); [right|left]; auto. }
+    destruct sched as [|l sched]; [exact (NE M eq_refl)|].
+    cbn [run forallb] in *. apply andb_true_iff in F. destruct F as [Fl _].
+    destruct (step guard_or guard_or s l) as [s1|] eqn:St; try discriminate.
+    apply (K l s1 St). apply not_spurious; intros; subst; discriminate.
+  - eapply (K LWaitWake); [cbn [step]; rewrite Ha; reflexivity|]. apply not_spurious; intros; discriminate.
+  - destruct (nth_error (workers s) j) as [w|] eqn:Hj.
+    + eapply (K LCancel); [cbn [step]; rewrite Ha, Hj; reflexivity|]. apply not_spurious; intros; discriminate.
+    + eapply (K LCancel); [cbn [step]; rewrite Ha, Hj; reflexivity|]. apply not_spurious; intros; discriminate.
+  - (* joining worker j *)
+    unfold CancelInv in HC. rewrite Ha in HC.
+    destruct (nth_error (workers s) j) as [w|] eqn:Hj.
+    + destruct (ws w) eqn:Hw.
+      * eapply (K (LStart j)); [cbn [step]; rewrite Hj, Hw; reflexivity|]. apply not_spurious; intros; discriminate.
+      * eapply (K (LRetest j)); [cbn [step]; rewrite Hj, Hw; reflexivity|]. apply not_spurious; intros; discriminate.
+      * eapply (K (LDie j)); [cbn [step]; rewrite Hj, Hw, (HC j w Hj); reflexivity|]. apply not_spurious; intros; discriminate.
+      * eapply (K (LFinish j)); [cbn [step]; rewrite Hj, Hw; reflexivity|]. apply not_spurious; intros; discriminate.
+      * eapply (K LJoin); [cbn [step]; rewrite Ha, Hj; unfold is_dead; rewrite Hw; reflexivity|].
+        apply not_spurious; intros; discriminate.
+    + eapply (K LJoin); [cbn [step]; rewrite Ha, Hj; reflexivity|]. apply not_spurious; intros; discriminate.
+Qed.
+
+(* ------------------------------------------------------------------------- *)
+(* work_fini terminates: from every reachable state inside work_fini there is *)
+(* a finite schedule after which it has returned.                             *)
+(* ------------------------------------------------------------------------- *)
+Lemma run_app wc fc a : forall s b, run wc fc s (a ++ b) = match run wc fc s a with Some s1 => run wc fc s1 b | None => None end.
+Proof.
+  induction a as [|l a IH]; intros s b; cbn [run app]; auto.
+  destruct (step wc fc s l); auto.
+Qed.
+
+Definition all_cancelled (s : st) : Prop := forall i w, nth_error (workers s) i = Some w -> cp w = true.
+
+Section G6.
+Variable wc fc : nat -> bool -> bool.
+
+Lemma kill_worker s j w : acc s = AJoining j -> nth_error (workers s) j = Some w -> all_cancelled s ->
+  exists sched s', run wc fc s sched = Some s' /\ acc s' = AJoining j /\ all_cancelled s' /\
+                   length (workers s') = length (workers s) /\
+                   exists w', nth_error (workers s') j = Some w' /\ is_dead w' = true.
+Proof.
+  intros Ha Hj HA. pose proof (HA j w Hj) as Hc.
+  assert (CP : forall s1, cpm (workers s) (workers s1) -> all_cancelled s1).
+  { intros s1 Hm i x Hx. destruct (Hm i x Hx) as (y & Hy & C). apply C. eapply HA; eauto. }
+  destruct (ws w) eqn:Hw.
+  - (* Ready: starts, sees the cancel request at pthread_testcancel *)
+    exists [LStart j]. eexists. cbn [run step]. rewrite Hj, Hw. unfold enter. rewrite Hc. split; [reflexivity|].
+    unf; fields. splits; auto.
+    + apply CP. unf; fields. eapply cpm_upd; eauto.
+    + eapply upd_length; eauto.
+    + eexists. split; [eapply nth_upd_same; eauto|reflexivity].
+  - exists [LDie j]. eexists. cbn [run step]. rewrite Hj, Hw, Hc. split; [reflexivity|].
+    unf; fields. splits; auto.
+    + apply CP. unf; fields. eapply cpm_upd; eauto.
+    + eapply upd_length; eauto.
+    + eexists. split; [eapply nth_upd_same; eauto|reflexivity].
+  - exists [LDie j]. eexists. cbn [run step]. rewrite Hj, Hw, Hc. split; [reflexivity|].
+    unf; fields. splits; auto.
+    + apply CP. unf; fields. eapply cpm_upd; eauto.
+    + eapply upd_length; eauto.
+    + eexists. split; [eapply nth_upd_same; eauto|reflexivity].
+  - (* Working: finishes its item (cancellation disabled), then dies at pthread_testcancel *)
+    assert (Hn1 : nth_error (workers (finish1 s j w x)) j = Some (mkw WReady (cp w))).
+    { unfold finish1; fields. eapply nth_upd_same; eauto. }
+    exists [LFinish j]. eexists. cbn [run step]. rewrite Hj, Hw. unfold enter. cbn [cp]. rewrite Hc.
+    split; [reflexivity|]. unf; fields. splits.
+    + rewrite Ha. destruct (finish_signals s); reflexivity.
+    + apply CP. unf; fields. eapply cpm_trans; eapply cpm_upd; eauto.
+    + erewrite upd_length; [|exact Hn1]. eapply upd_length; eauto.
+    + eexists. split; [eapply nth_upd_same; exact Hn1|reflexivity].
+  - exists [], s. cbn [run]. splits; auto. exists w. split; auto. unfold is_dead. now rewrite Hw.
+Qed.
+
+Lemma join_loop : forall m s j, acc s = AJoining j -> all_cancelled s -> length (workers s) - j <= m ->
+  exists sched s', run wc fc s sched = Some s' /\ acc s' = ADone.
+Proof.
+  induction m as [|m IH]; intros s j Ha HA Hm.
+  - assert (Hj : nth_error (workers s) j = None) by (apply nth_error_None; lia).
+    exists [LJoin]. eexists. cbn [run step]. rewrite Ha, Hj. split; reflexivity.
+  - destruct (nth_error (workers s) j) as [w|] eqn:Hj.
+    + destruct (kill_worker s j w Ha Hj HA) as (sch1 & s1 & R1 & A1 & C1 & L1 & w' & Hj1 & D1).
+      assert (St : step wc fc s1 LJoin = Some (set_acc s1 (AJoining (S j)))).
+      { cbn [step]. now rewrite A1, Hj1, D1. }
+      assert (Hlt : j < length (workers s)) by (apply nth_error_Some; congruence).
+      destruct (IH (set_acc s1 (AJoining (S j))) (S j)) as (sch2 & s2 & R2 & A2).
+      * reflexivity.
+      * exact C1.
+      * unf; fields. lia.
+      * exists (sch1 ++ LJoin :: sch2), s2. rewrite run_app, R1. cbn [run]. rewrite St. auto.
+    + exists [LJoin]. eexists. cbn [run step]. rewrite Ha, Hj. split; reflexivity.
+Qed.
+
+Lemma cancel_loop : forall m s j, acc s = ACancelling j ->
+  (forall i w, i < j -> nth_error (workers s) i = Some w -> cp w = true) -> length (workers s) - j <= m ->
+  exists sched s', run wc fc s sched = Some s' /\ acc s' = AJoining 0 /\ all_cancelled s'.
+Proof.
+  induction m as [|m IH]; intros s j Ha HA Hm.
+  - assert (Hj : nth_error (workers s) j = None) by (apply nth_error_None; lia).
+    exists [LCancel]. eexists. cbn [run step]. rewrite Ha, Hj. split; [reflexivity|]. unf; fields. split; auto.
+    intros i w Hi. fields. apply (HA i); auto.
+    apply nth_error_None in Hj. assert (i < length (workers s)) by (apply nth_error_Some; congruence). lia.
+  - destruct (nth_error (workers s) j) as [w|] eqn:Hj.
+    + assert (Hlt : j < length (workers s)) by (apply nth_error_Some; congruence).
+      destruct (IH (setw (set_acc s (ACancelling (S j))) j (mkw (ws w) true)) (S j)) as (sch & s' & R & A & C).
+      * reflexivity.
+      * unf; fields. intros i x Hi Hx. destruct (Nat.eq_dec i j) as [->|Hne].
+        -- rewrite (nth_upd_same _ _ _ _ Hj) in Hx. inversion Hx; subst. reflexivity.
+        -- rewrite (nth_upd_other _ _ _ _ _ Hj Hne) in Hx. apply (HA i); auto. lia.
+      * unf; fields. rewrite (upd_length _ _ _ _ Hj). lia.
+      * exists (LCancel :: sch), s'. cbn [run step]. rewrite Ha, Hj. auto.
+    + exists [LCancel]. eexists. cbn [run step]. rewrite Ha, Hj. split; [reflexivity|]. unf; fields. split; auto.
+      intros i x Hi. fields. apply (HA i); auto.
+      apply nth_error_None in Hj. assert (i < length (workers s)) by (apply nth_error_Some; congruence). lia.
+Qed.
+
+Lemma run_worker_acc k sched : forall s s', forallb worker_label sched = true -> run wc fc s sched = Some s' ->
+  acc s = AWoken k \/ acc s = ABlocked k -> acc s' = AWoken k \/ acc s' = ABlocked k.
+Proof.
+  induction sched as [|l sched IH]; cbn [run forallb]; intros s s' F R Ha.
+  - inversion R; subst; auto.
+  - apply andb_true_iff in F. destruct F as [Fl F].
+    destruct (step wc fc s l) as [s1|] eqn:St; try discriminate.
+    apply (IH s1 s' F R).
+    destruct l; try discriminate Fl.
+    + exfalso. cbn [step] in St. destruct Ha as [Ha|Ha]; rewrite Ha in St; discriminate.
+    + destruct (worker_step_shape wc fc s _ s1 St I) as [_ [E|(k' & E1 & E2)]].
+      * rewrite E. auto.
+      * rewrite E2. destruct Ha as [Ha|Ha]; rewrite Ha in E1; inversion E1; subst; auto.
+    + destruct (worker_step_shape wc fc s _ s1 St I) as [_ [E|(k' & E1 & E2)]].
+      * rewrite E. auto.
+      * rewrite E2. destruct Ha as [Ha|Ha]; rewrite Ha in E1; inversion E1; subst; auto.
+    + destruct (worker_step_shape wc fc s _ s1 St I) as [_ [E|(k' & E1 & E2)]].
+      * rewrite E. auto.
+      * rewrite E2. destruct Ha as [Ha|Ha]; rewrite Ha in E1; inversion E1; subst; auto.
+Qed.
+End G6.
+
+Definition in_fini (a : astate) : bool :=
+  match a with ABlocked KFini | AWoken KFini | ACancelling _ | AJoining _ | ADone => true | _ => false end.
+
+Theorem fini_terminates n tr s : n <> 0 -> run guard_or guard_or (init n) tr = Some s -> in_fini (acc s) = true ->
+  exists sched s', run guard_or guard_or s sched = Some s' /\ acc s' = ADone /\
+                   (dwait s' = true -> Permutation (done s') (accepted s')).
+Proof.
+  intros Hn R Hf.
+  assert (FIN : forall sched s', run guard_or guard_or s sched = Some s' -> acc s' = ADone ->
+                 exists sched s', run guard_or guard_or s sched = Some s' /\ acc s' = ADone /\
+                   (dwait s' = true -> Permutation (done s') (accepted s'))).
+  { intros sched s' R' A'. exists sched, s'. splits; auto. intros D.
+    assert (RR : run guard_or guard_or (init n) (tr ++ sched) = Some s') by (rewrite run_app, R; exact R').
+    destruct (fini_drains guard_or n _ s' Hn RR D) as (_ & _ & P); auto. left. now rewrite A'. }
+  assert (HC : CancelInv s).
+  { apply (run_CancelInv guard_or guard_or tr (init n) s); [apply init_CancelInv|exact R]. }
+  assert (FromCancel : forall sch0 s0 j, run guard_or guard_or s sch0 = Some s0 -> acc s0 = ACancelling j ->
+            (forall i w, i < j -> nth_error (workers s0) i = Some w -> cp w = true) ->
+            exists sched s', run guard_or guard_or s sched = Some s' /\ acc s' = ADone).
+  { intros sch0 s0 j R0 A0 C0.
+    destruct (cancel_loop guard_or guard_or (length (workers s0) - j) s0 j A0 C0 (le_n _)) as (sch1 & s1 & R1 & A1 & C1).
+    destruct (join_loop guard_or guard_or (length (workers s1) - 0) s1 0 A1 C1 (le_n _)) as (sch2 & s2 & R2 & A2).
+    exists (sch0 ++ sch1 ++ sch2), s2. rewrite run_app, R0, run_app, R1. auto. }
+  assert (FromWait : acc s = AWoken KFini \/ acc s = ABlocked KFini ->
+            exists sched s', run guard_or guard_or s sched = Some s' /\ acc s' = ADone).
+  { intros Ha. destruct (reach_invs _ _ _ _ _ Hn R) as [HI HP].
+    assert (P : past_wait (acc s) = false) by (destruct Ha as [Ha|Ha]; rewrite Ha; reflexivity).
+    destruct (drain_pre guard_or guard_or s HI HP P) as (sch1 & s1 & F1 & R1 & Q1 & W1 & I1 & _).
+    pose proof (run_worker_acc guard_or guard_or KFini sch1 s s1 F1 R1 Ha) as Ha1.
+    assert (RR : run guard_or guard_or (init n) (tr ++ sch1) = Some s1) by (rewrite run_app, R; exact R1).
+    assert (HB : BlockedOk s1).
+    { apply (run_BlockedOk guard_or guard_or guard_or_sound guard_or_sound (tr ++ sch1) (init n) s1); [apply init_BlockedOk|exact RR]. }
+    destruct Ha1 as [Ha1|Ha1]; [|destruct (HB KFini Ha1); congruence].
+    assert (St : step guard_or guard_or s1 LWaitWake = Some (set_acc s1 (ACancelling 0))).
+    { cbn [step]. rewrite Ha1. unfold check_guard. cbn [guard_of guard_exit]. rewrite W1, Q1. reflexivity. }
+    apply (FromCancel (sch1 ++ [LWaitWake]) (set_acc s1 (ACancelling 0)) 0).
+    - rewrite run_app, R1. cbn [run]. now rewrite St.
+    - reflexivity.
+    - intros i w Hi. lia. }
+  unfold CancelInv in HC.
+  destruct (acc s) eqn:Ha; try discriminate Hf.
+  - destruct k; try discriminate Hf. destruct FromWait as (sched & s' & R' & A'); auto. eapply FIN; eauto.
+  - destruct k; try discriminate Hf. destruct FromWait as (sched & s' & R' & A'); auto. eapply FIN; eauto.
+  - destruct (FromCancel [] s j eq_refl Ha HC) as (sched & s' & R' & A'). eapply FIN; eauto.
+  - destruct (join_loop guard_or guard_or (length (workers s) - j) s j Ha HC (le_n _)) as (sched & s' & R' & A').
+    eapply FIN; eauto.
+  - apply (FIN [] s); auto.
+Qed.
